@@ -74,6 +74,7 @@ let reason_str (site : string) (r : reason) : string =
   | RSizeSmall -> "size-field-below-fields"
   | RGuard -> if site = "senc" then "senc-sample-count-zero-data-dropped"
               else if site = "uuid" then "piff-senc-sample-count-zero-data-dropped"
+              else if site = "sgpd" then "reserved-bits-rewritten"   (* the reserved byte of a seig entry *)
               else if site = "esds" then "esds-noncanonical-size-field-or-unknown-data" else "trun-data-offset-zero"
   | RMoov -> "trak-reordered"
   | RMoof -> "moof-trun-data-offset-zero"
